@@ -4,6 +4,7 @@ import BeyondVerif.Generated.FormTables
 import BeyondVerif.Props.C20
 import Mathlib.Tactic.LinearCombination
 import Mathlib.Tactic.NormNum
+import Mathlib.Analysis.Real.Pi.Bounds
 
 /-!
 # C01 — orbital element forms are lossless, definition-true views of one state
@@ -607,5 +608,103 @@ theorem infos_hyperbolic (mu r a e nu : ℝ) (hmu : 0 < mu) (ha : a < 0) (h1 : 1
   refine ⟨?_, ?_⟩
   · field_simp
   · field_simp
+
+/-! ## keplerian ↔ cartesian (partial) -/
+
+/-- **keplerian → cartesian, definition-truth of the result (partial round trip)**: for `µ p ≥ 0`, `p = a(1−e²) ≠ 0`,
+`1 + e cos ν ≠ 0` the state returned by the code has radius `r = p/(1+e cos ν)`, speed given by vis-viva
+`v² = µ(2/r − 1/a)`, and angular momentum `r × v = √(µp)·(sin i sin Ω, −sin i cos Ω, cos i)` — i.e. the a, e, i, Ω
+that `cartesian → keplerian` reads off (energy, `|h|²/µ`, `h_z/|h|`, `atan2(h_x, −h_y)`) are the ones put in. -/
+theorem keplToCart_radius_speed_momentum (mu a e i Ω ω ν x y z vx vy vz : ℝ) (hmp : 0 ≤ mu * (a * (1 - e ^ 2)))
+    (ha : a ≠ 0) (he : 1 - e ^ 2 ≠ 0) (hD : 1 + e * Real.cos ν ≠ 0)
+    (h : keplToCart mu a e i Ω ω ν = [x, y, z, vx, vy, vz]) :
+    let r := a * (1 - e ^ 2) / (1 + e * Real.cos ν)
+    let hh := Real.sqrt (mu * (a * (1 - e ^ 2)))
+    x ^ 2 + y ^ 2 + z ^ 2 = r ^ 2 ∧ vx ^ 2 + vy ^ 2 + vz ^ 2 = mu * (2 / r - 1 / a) ∧
+    y * vz - z * vy = hh * (Real.sin i * Real.sin Ω) ∧ z * vx - x * vz = hh * (-(Real.sin i * Real.cos Ω)) ∧
+    x * vy - y * vx = hh * Real.cos i := by
+  intro r hh
+  have hhh : Real.sqrt (mu * (a * (1 - e ^ 2))) ^ 2 = mu * (a * (1 - e ^ 2)) := Real.sq_sqrt hmp
+  simp only [keplToCart, powi, sqrt, cos, sin, List.cons.injEq, and_true] at h
+  obtain ⟨rfl, rfl, rfl, rfl, rfl, rfl⟩ := h
+  have h1 := Real.sin_sq_add_cos_sq Ω
+  have h2 := Real.sin_sq_add_cos_sq i
+  have h3 := Real.sin_sq_add_cos_sq (ω + ν)
+  have h4 := Real.sin_sq_add_cos_sq ν
+  simp only [r]
+  change _ ∧ _ ∧ _ = Real.sqrt (mu * (a * (1 - e ^ 2))) * _ ∧ _ = Real.sqrt (mu * (a * (1 - e ^ 2))) * _ ∧ _ = Real.sqrt (mu * (a * (1 - e ^ 2))) * _
+  generalize Real.sqrt (mu * (a * (1 - e ^ 2))) = H at *
+  generalize Real.cos Ω = cO at *
+  generalize Real.sin Ω = sO at *
+  generalize Real.cos i = ci at *
+  generalize Real.sin i = si at *
+  generalize Real.cos (ω + ν) = cu at *
+  generalize Real.sin (ω + ν) = su at *
+  generalize Real.cos ν = cn at *
+  generalize Real.sin ν = sn at *
+  refine ⟨?_, ?_, ?_, ?_, ?_⟩
+  · field_simp; linear_combination (ci ^ 2 * su ^ 2 + cu ^ 2) * h1 + (su ^ 2) * h2 + (1) * h3
+  · field_simp; linear_combination (1 + 2 * cn * e + e ^ 2) * hhh + (H ^ 2 + 2 * H ^ 2 * ci ^ 2 * cn * cu * e ^ 2 * sn * su + 2 * H ^ 2 * ci ^ 2 * cn * cu ^ 2 * e + 2 * H ^ 2 * ci ^ 2 * cn ^ 2 * cu ^ 2 * e ^ 2 + (-1) * H ^ 2 * ci ^ 2 * cn ^ 2 * e ^ 2 + 2 * H ^ 2 * ci ^ 2 * cu * e * sn * su + H ^ 2 * ci ^ 2 * cu ^ 2 + (-1) * H ^ 2 * ci ^ 2 * cu ^ 2 * e ^ 2 + H ^ 2 * ci ^ 2 * e ^ 2 + (-2) * H ^ 2 * cn * cu * e ^ 2 * sn * su + (-2) * H ^ 2 * cn * cu ^ 2 * e + 2 * H ^ 2 * cn * e + (-2) * H ^ 2 * cn ^ 2 * cu ^ 2 * e ^ 2 + H ^ 2 * cn ^ 2 * e ^ 2 + (-2) * H ^ 2 * cu * e * sn * su + (-1) * H ^ 2 * cu ^ 2 + H ^ 2 * cu ^ 2 * e ^ 2) * h1 + (2 * H ^ 2 * cn * cu * e ^ 2 * sn * su + 2 * H ^ 2 * cn * cu ^ 2 * e + H ^ 2 * cn ^ 2 * cu ^ 2 * e ^ 2 + (-1) * H ^ 2 * cn ^ 2 * e ^ 2 * su ^ 2 + 2 * H ^ 2 * cu * e * sn * su + H ^ 2 * cu ^ 2 + H ^ 2 * e ^ 2 * su ^ 2) * h2 + (H ^ 2 * cO ^ 2 + (-1) * H ^ 2 * cO ^ 2 * ci ^ 2 * cn ^ 2 * e ^ 2 + H ^ 2 * cO ^ 2 * ci ^ 2 * e ^ 2 + 2 * H ^ 2 * cO ^ 2 * cn * e + H ^ 2 * cO ^ 2 * cn ^ 2 * e ^ 2 + H ^ 2 * ci ^ 2 * cn ^ 2 * e ^ 2 + (-1) * H ^ 2 * ci ^ 2 * e ^ 2 + H ^ 2 * ci ^ 2 * e ^ 2 * sO ^ 2 * sn ^ 2 + 2 * H ^ 2 * cn * e * sO ^ 2 + (-1) * H ^ 2 * cn ^ 2 * e ^ 2 + H ^ 2 * cn ^ 2 * e ^ 2 * sO ^ 2 + H ^ 2 * e ^ 2 + H ^ 2 * sO ^ 2) * h3 + (H ^ 2 * cO ^ 2 * ci ^ 2 * e ^ 2 * su ^ 2 + H ^ 2 * cO ^ 2 * cu ^ 2 * e ^ 2 + (-1) * H ^ 2 * ci ^ 2 * cu ^ 2 * e ^ 2 * sO ^ 2 + H ^ 2 * ci ^ 2 * e ^ 2 * sO ^ 2 + H ^ 2 * cu ^ 2 * e ^ 2 * sO ^ 2 + H ^ 2 * e ^ 2 * si ^ 2 * su ^ 2) * h4
+  · field_simp; linear_combination (H * cn * e * sO * si + H * sO * si) * h3
+  · field_simp; linear_combination ((-1) * H * cO * cn * e * si + (-1) * H * cO * si) * h3
+  · field_simp; linear_combination (H * ci * cn * e + H * ci * cu ^ 2 + H * ci * su ^ 2) * h1 + (H * cO ^ 2 * ci * cn * e + H * ci + H * ci * cn * e * sO ^ 2) * h3
+
+
+/-- **keplerian → cartesian → keplerian, partial**: a, e, i are recovered exactly and Ω as the same point of the circle
+(`µ > 0`, `a ≠ 0`, `e ≥ 0`, `p = a(1−e²) > 0`, `1 + e cos ν > 0`, `0 < i < π`; ellipses and hyperbolas alike).
+The full statement also needs ω and ν (the perigee/anomaly split of `cartesian → keplerian`); that part is not proved. -/
+theorem kepl_cart_kepl_partial (mu a e i Ω ω ν : ℝ) (hmu : 0 < mu) (ha : a ≠ 0) (he0 : 0 ≤ e)
+    (hp : 0 < a * (1 - e ^ 2)) (hD : 0 < 1 + e * Real.cos ν) (hi : 0 < i ∧ i < Real.pi) :
+    ∃ Ω', (app6 cartToKepl mu (keplToCart mu a e i Ω ω ν)).take 4 = [a, e, i, Ω'] ∧ AngEq Ω' Ω := by
+  have he : 1 - e ^ 2 ≠ 0 := by rintro h; rw [h] at hp; simp at hp
+  have hmp : 0 < mu * (a * (1 - e ^ 2)) := by positivity
+  obtain ⟨x, y, z, vx, vy, vz, hk⟩ : ∃ x y z vx vy vz, keplToCart mu a e i Ω ω ν = [x, y, z, vx, vy, vz] := by
+    simp only [keplToCart]; exact ⟨_, _, _, _, _, _, rfl⟩
+  obtain ⟨f1, f2, f3, f4, f5⟩ := keplToCart_radius_speed_momentum mu a e i Ω ω ν x y z vx vy vz hmp.le ha he hD.ne' hk
+  have hH : 0 < Real.sqrt (mu * (a * (1 - e ^ 2))) := Real.sqrt_pos.mpr hmp
+  have hHH : Real.sqrt (mu * (a * (1 - e ^ 2))) ^ 2 = mu * (a * (1 - e ^ 2)) := Real.sq_sqrt hmp.le
+  have hr : 0 < a * (1 - e ^ 2) / (1 + e * Real.cos ν) := by positivity
+  have hsi : 0 < Real.sin i := Real.sin_pos_of_pos_of_lt_pi hi.1 hi.2
+  have h1 := Real.sin_sq_add_cos_sq Ω
+  have h2 := Real.sin_sq_add_cos_sq i
+  generalize Real.sqrt (mu * (a * (1 - e ^ 2))) = H at *
+  generalize a * (1 - e ^ 2) / (1 + e * Real.cos ν) = r at *
+  have hhn : Real.sqrt ((H * (Real.sin i * Real.sin Ω)) ^ 2 + (H * (-(Real.sin i * Real.cos Ω))) ^ 2 + (H * Real.cos i) ^ 2) = H := by
+    have : (H * (Real.sin i * Real.sin Ω)) ^ 2 + (H * (-(Real.sin i * Real.cos Ω))) ^ 2 + (H * Real.cos i) ^ 2 = H ^ 2 := by
+      linear_combination (H ^ 2 * Real.sin i ^ 2) * h1 + (H ^ 2) * h2
+    rw [this, Real.sqrt_sq hH.le]
+  have hvv : 0 ≤ mu * (2 / r - 1 / a) := by rw [← f2]; positivity
+  have hK : mu * (2 / r - 1 / a) / 2 - mu / r = -mu / (2 * a) := by field_simp; ring
+  have ha' : -mu / (2 * (-mu / (2 * a))) = a := by field_simp
+  have he' : Real.sqrt (1 - H ^ 2 / (a * mu)) = e := by
+    have : 1 - H ^ 2 / (a * mu) = e ^ 2 := by rw [hHH]; field_simp; ring
+    rw [this, Real.sqrt_sq he0]
+  have hi' : Real.arccos (H * Real.cos i / H) = i := by
+    rw [mul_div_cancel_left₀ _ hH.ne', Real.arccos_cos hi.1.le hi.2.le]
+  have hneg : -(H * -(Real.sin i * Real.cos Ω)) = H * Real.sin i * Real.cos Ω := by ring
+  have hpos' : H * (Real.sin i * Real.sin Ω) = H * Real.sin i * Real.sin Ω := by ring
+  have aΩ : AngEq (fmod (atan2 (H * (Real.sin i * Real.sin Ω)) (H * Real.sin i * Real.cos Ω)) (2 * pi)) Ω := by
+    rw [hpos']; exact (fmod_two_pi_angEq _).trans (atan2_scaled (by positivity))
+  refine ⟨_, ?_, aΩ⟩
+  rw [hk]
+  simp only [app6, cartToKepl, powi, sqrt, acos, f1, f3, f4, f5, hhn, Real.sqrt_sq hr.le, Real.sq_sqrt (show (0:ℝ) ≤ vx ^ 2 + vy ^ 2 + vz ^ 2 by positivity), f2, Real.sq_sqrt hvv, hK, ha', he', hi', hneg, List.take_succ_cons, List.take_zero]
+
+/-! ## Non-vacuity: the hypothesis sets above are met by concrete, non-trivial values -/
+
+/-- off the z axis (cylindrical / spherical theorems) -/
+example : ((3 : ℝ) ^ 2 + (-4) ^ 2 ≠ 0) := by norm_num
+/-- ellipse `e = 1/2`, any anomaly (eccentric-anomaly and Kepler theorems) -/
+example : (0 : ℝ) ≤ 1 / 2 ∧ (1 / 2 : ℝ) < 1 := by norm_num
+/-- hyperbola `e = 2` at perigee: `1 + e cos ν > 0` -/
+example : (1 : ℝ) < 2 ∧ (0 : ℝ) < 1 + 2 * Real.cos 0 := by norm_num
+/-- `kepl_cart_kepl_partial` / `infos_fpa_components_unit`: µ = 1, a = 1, e = 1/2, i = 1, ν = 0 -/
+example : (0 : ℝ) < 1 * (1 - (1 / 2) ^ 2) ∧ (0 : ℝ) < 1 + 1 / 2 * Real.cos 0 ∧ ((0 : ℝ) < 1 ∧ (1 : ℝ) < Real.pi) := by
+  refine ⟨by norm_num, by norm_num, by norm_num, by linarith [Real.pi_gt_three]⟩
+/-- the same for a hyperbola: a = -1, e = 2 (`p = a(1 − e²) = 3 > 0`) -/
+example : (0 : ℝ) < (-1) * (1 - 2 ^ 2) := by norm_num
+/-- the Kepler loop does return values: `M2E(0, 0) = 0` after one test of the exit condition -/
+example : m2e 1 0 0 = some 0 := by
+  simp [m2e, m2eLoop, m2eStart, m2eNext, m2eContinue, m2eTol]
+  norm_num
 
 end BeyondVerif.C01
